@@ -1362,6 +1362,16 @@ func (ex *Exec) evalInstr(fr *frame, v ssa.Value) Value {
 			}
 			return b.E[i]
 		case VStr:
+			if b.Atom != nil && b.HexNum {
+				// a character of the 64-digit zero-padded lower-case rendering; values are below 16^62, so the first
+				// (two) digit(s) are '0'
+				if idx.Const && idx.I.Sign() == 0 {
+					return VInt{IntC('0')}
+				}
+				c := ex.aux("hexchar")
+				ex.assume(Or(And(Ge(c, IntC('0')), Le(c, IntC('9'))), And(Ge(c, IntC('a')), Le(c, IntC('f')))))
+				return VInt{c}
+			}
 			if b.Bytes != nil {
 				i := ex.concretize(idx, 0, len(b.Bytes)-1)
 				if i < 0 {
@@ -1919,6 +1929,11 @@ func (ex *Exec) builtin(fr *frame, b *ssa.Builtin, cc *ssa.CallCommon, args []Va
 			}
 			if x.Bytes != nil {
 				return VInt{IntC(int64(len(x.Bytes)))}
+			}
+			if x.Atom != nil && x.HexNum {
+				// hex numeral atom: 64 digits, or 66 with the alternative spelling (two leading zeros)
+				_, bit := ex.divModPos(*x.Atom, big.NewInt(2))
+				return VInt{Ite(Eq(bit, IntC(1)), IntC(66), IntC(64))}
 			}
 			if x.Atom != nil && x.N > 0 {
 				return VInt{IntC(int64(x.N))}
